@@ -24,6 +24,9 @@ CHECKS = {
  "C14": ("model-based monitor: expected border walk from a reference bit-interleave, expected external ring from neighbours of the deep border cells (runtime oracle)",
          "internal_edge(_sorted), internal_corner, internal_edge_part, external_edge(_sorted|_struct) and their free-function wrappers are compared, for every cell of small depths with delta<=4/6 and for all seam classes of every deeper depth (delta up to depth+delta=29), with sets/walks built independently; duplicates, order, labels and counts are all judged.",
          "trusted: refm.rs interleave; Layer::neighbours (judged geometrically by C04) + 1% geometric spot checks", "DESIGN.md §4 C14"),
+ "C16": ("bound monitors against reference cell geometry + containment witnesses at threshold radii (runtime oracle)",
+         "(a) bound >= true centre-to-vertex distance for every cell of depths <= 7/9 and class samples to depth 29; (b) *_with_radius bounds vs every cell centred inside generated cones (poles, seams, transition); (c) best_starting_depth: monotone, equal to a scan of thresholds found by bisection, refusal rule, and containment of the cone in the centre cell + neighbours for radii aimed at the thresholds. Known finding R5 (table slightly too large at polar-cap seams) is reported as KNOWN-FINDING under an exact signature.",
+         "trusted: refm.rs geometry, Layer::hash / neighbours (C01, C04); claim (a) is evaluated at cell centres (the quantifier is over cells)", "DESIGN.md §4 C16"),
  "C17": ("reference-model monitor (independent Calabretta-Roukema formulae) + round-trip monitors, both directions",
          "proj/unproj/base_cell_from_proj_coo outputs for millions of generated sphere positions and plane points (facet boundaries, |y| in {1,2}, poles +-ulps, negative and >2pi longitudes) are judged against an independent projection model, round-trips and range/sign rules; out-of-range arguments must panic.",
          "trusted: refm.rs reference projection (cross-checked with mpmath); a facet-boundary point has two admissible images, either is accepted", "DESIGN.md §4 C17"),
